@@ -174,7 +174,18 @@ func (w *CaseWriter) add(term string, input interface{}) int {
 }
 
 func (w *CaseWriter) flush() {
-	for i, sh := range w.shards {
+	// at most maxPerFile cases per file: coqc's memory grows with the size of the literal list (thorough runs emit
+	// hundreds of thousands of cases)
+	const maxPerFile = 2500
+	var files [][]string
+	for _, sh := range w.shards {
+		for len(sh) > maxPerFile {
+			files = append(files, sh[:maxPerFile])
+			sh = sh[maxPerFile:]
+		}
+		files = append(files, sh)
+	}
+	for i, sh := range files {
 		if len(sh) == 0 {
 			continue
 		}
